@@ -186,7 +186,7 @@ def analyse_all(tier, seed, pid, level):
 
 def report(ck, findings, pid):
     if findings:
-        path = ck.save_replay({'property': pid, 'cases': ck.extra.get('_mem_cases', [])[:24] + [{'kind': 'hostile-prelude'}, {'kind': 'sanity'}, {'kind': 'mem'}], 'symbolic_findings': [{'call': f[0], 'what': f[1]} for f in findings[:10]]})
+        path = ck.save_replay({'property': pid, 'cases': ck.extra.get('_mem_cases', [])[:24] + [{'kind': 'prelude-then-sanity', 'op': 'all'}, {'kind': 'mem'}], 'symbolic_findings': [{'call': f[0], 'what': f[1]} for f in findings[:10]]})
         ok, out = core.go_test(path)
         if not ok and 'MISMATCH' in out:
             key = 'write:' + (findings[0][2][0]['at'] if findings[0][2] else findings[0][0])
